@@ -19,7 +19,7 @@ def mutate(rng, body, boundary):
         if not parts:
             return body + b'\x00', k
         i = rng.choice(parts)
-        octet = bytes([rng.choice([0, 0, 0, 1, 8, 11, 12, 127, 27])])
+        octet = bytes([rng.choice([0, 0, 0, 1, 8, 127, 27])])      # VT/FF would be line breaks for str.splitlines (not modelled)
         line = rng.choice([b'\r\nContent-Type: image' + octet + b'/png', b'\r\nX-Note: a' + octet + b'b', b'\r\nContent-Transfer-Encoding: ' + octet, octet])
         return body[:i] + line + body[i:], k
     if k == 'none':
